@@ -5,8 +5,8 @@ from nodegen import *
 ID = "C19"
 DRIVER = "node"
 MODEL_FILES = ["Model/Base.v", "Model/Parse.v", "Model/Node.v"]
-THEOREMS = []
-STRENGTH = {}
+THEOREMS = ["C19_newer_never_refused", "C19_newer_reply_value", "C19_newer_apply", "C19_tombstone_reply_refuted"]
+STRENGTH = {t: "proof-unbounded" for t in THEOREMS}
 RULE = ("exhaustive sequences (length <= 4 quick / 5 thorough) of plain and versioned writes (versions -1..3) to keys of a "
         "'newer' database and of the administrative database, with a watcher, remove and snapshot+flush mixed in; seeded random "
         "sequences on two keys with versions below/at/above the current one; distinct = distinct canonical trace; non-trivial = "
